@@ -69,7 +69,8 @@ CHECK = {
          'watchdog, 2 s soft bound), the node afterwards processes a fresh valid block on whatever its tip is, no goroutine is left behind once the node '
          'is closed; acceptance itself is not judged (C03). Non-trivial = derived from a valid message/argument set by <= 3 mutations, or passing the target\'s first '
          'decoding step (wire cases: only if the effect at the victim was observed; downloads: only if the scripted peer was asked); distinct by digest '
-         'of (target, arguments)',
+         'of (target, arguments)'
+         ' Plus TestGossipSequences: SEQUENCES of 3-14 well-formed peer messages through a live transaction pool (gossip through the registered validator and handler, replacements, duplicates, getTransactions requests, promotion passes, and received blocks whose transactions are removed from the pool by ID the way the generator does); oracle: no panic, every call returns (non-trivial = a removal after a replacement).',
  'level_text': 'Every network-facing decoder, validator and verifier is called in-process with exhaustively enumerated and randomly stacked structural '
                'mutations of valid messages and with all short byte strings; a recovered panic, a call that does not return (watchdog with goroutine '
                'dump), a reproducible overrun of the generous time/allocation envelopes, or an Accept for an undecodable gossip payload is a violation. '
@@ -88,7 +89,7 @@ CHECK = {
    {'pkg': 'c09', 'run': 'TestDecodeMutations|TestDecodeShortStrings|TestRegress|^Fuzz|TestReplayCase', 'timeout': 900},
    {'pkg': 'c09', 'run': 'TestNodeMutations|TestNodeShortStrings|TestAggregateCommitEnumerated|TestSyncClientE2E|TestDownloaderTerminates', 'timeout': 900},
    {'pkg': 'c09', 'run': 'TestCryptoEnumerated|TestProofsEnumerated', 'timeout': 900},
-   {'pkg': 'c09', 'run': 'TestRandomMutations|TestRandomBytes|TestStructuredRandom', 'checks': 30000, 'timeout': 900},
+   {'pkg': 'c09', 'run': 'TestRandomMutations|TestRandomBytes|TestStructuredRandom|TestGossipSequences', 'checks': 30000, 'timeout': 900},
    # envelope level over real connections (victim node in a child process) / sync downloads against hostile well-formed peers
    {'pkg': 'c09', 'run': 'TestWireEnvelopes|TestWireRandom', 'checks': 120, 'timeout': 900},
    {'pkg': 'c09', 'run': 'TestDownloaderHostilePeers|TestDownloaderRandomPeer', 'checks': 60, 'timeout': 900},
@@ -102,7 +103,7 @@ CHECK = {
    {'pkg': 'c09', 'run': 'TestDecodeMutations|TestDecodeShortStrings|TestRegress|^Fuzz', 'shards': 16, 'timeout': 2400},
    {'pkg': 'c09', 'run': 'TestNodeMutations|TestNodeShortStrings|TestAggregateCommitEnumerated|TestSyncClientE2E|TestDownloaderTerminates', 'shards': 4, 'timeout': 2400},
    {'pkg': 'c09', 'run': 'TestCryptoEnumerated|TestProofsEnumerated', 'shards': 2, 'timeout': 2400},
-   {'pkg': 'c09', 'run': 'TestRandomMutations|TestRandomBytes|TestStructuredRandom', 'checks': 600000, 'shards': 10, 'timeout': 2400},
+   {'pkg': 'c09', 'run': 'TestRandomMutations|TestRandomBytes|TestStructuredRandom|TestGossipSequences', 'checks': 600000, 'shards': 10, 'timeout': 2400},
    {'pkg': 'c09', 'run': 'TestWireEnvelopes|TestWireRandom', 'checks': 6000, 'shards': 2, 'timeout': 2400},
    {'pkg': 'c09', 'run': 'TestDownloaderHostilePeers|TestDownloaderRandomPeer', 'checks': 1500, 'shards': 2, 'timeout': 2400},
    {'pkg': 'c09', 'run': 'TestSyncConversationHostilePeers|TestSyncConversationRandom', 'checks': 1200, 'shards': 2, 'timeout': 2400},
